@@ -38,7 +38,7 @@ theorem step_skip {P : Progs} {s s' : State} {t : Tid} {th : Thread} {i : Instr}
     · intro _; exact b9
   have same : ∀ r : Res, Inv P (setThread s t ⟨op, rest, true, a, snap, cr, pres, r⟩) := by
     intro r
-    exact inv_setThread_simple h ht (tinv a id id (fun hh => ⟨(i0.chk hh).1, hh⟩) rfl rfl rfl i0.mid rfl (i0.sm rfl) r) rfl rfl rfl rfl rfl rfl rfl
+    exact inv_setThread_simple h ht (tinv a id id (fun hh => ⟨(i0.chk hh).1, hh⟩) rfl rfl rfl i0.mid rfl (i0.sm rfl) r) rfl rfl rfl rfl rfl rfl rfl (fun x => x)
   unfold exec at hs
   simp only [if_true] at hs
   cases i
@@ -51,7 +51,7 @@ theorem step_skip {P : Progs} {s s' : State} {t : Tid} {th : Thread} {i : Instr}
       simp only [hwt'] at hs
       cases hs
       have h1 : Inv P (setThread s t ⟨op, rest, true, { a with hw := false, chk := false }, snap, cr, pres, res⟩) :=
-        inv_setThread_simple h ht (tinv { a with hw := false, chk := false } (by simp) id (by simp) rfl rfl rfl i0.mid rfl (i0.sm rfl) res) rfl rfl rfl rfl rfl rfl rfl
+        inv_setThread_simple h ht (tinv { a with hw := false, chk := false } (by simp) id (by simp) rfl rfl rfl i0.mid rfl (i0.sm rfl) res) rfl rfl rfl rfl rfl rfl rfl (fun x => x)
       refine inv_mu none h1 hwt ?_
       intro t0 th0 h0 hh0 hw0
       rcases upd_some_cases h0 with ⟨rfl, rfl⟩ | ⟨ne, h0'⟩
@@ -69,7 +69,7 @@ theorem step_skip {P : Progs} {s s' : State} {t : Tid} {th : Thread} {i : Instr}
       have nomid : a.mid = true → False := by
         intro hm; have := i0.sm rfl; simp only at this hm; rw [this] at hm; cases hm
       have h1 : Inv P (setThread s t ⟨op, rest, true, { a with ht := false }, snap, cr, pres, res⟩) := by
-        refine inv_setThread_simple h ht (tinv { a with ht := false } id (by simp) (fun hh => ⟨(i0.chk hh).1, hh⟩) rfl rfl rfl ?_ rfl (i0.sm rfl) res) rfl rfl rfl rfl rfl rfl rfl
+        refine inv_setThread_simple h ht (tinv { a with ht := false } id (by simp) (fun hh => ⟨(i0.chk hh).1, hh⟩) rfl rfl rfl ?_ rfl (i0.sm rfl) res) rfl rfl rfl rfl rfl rfl rfl (fun x => x)
         intro hm; exact (nomid hm).elim
       refine inv_tmu h1 none ?_
       intro t0 th0 h0 hh0
@@ -81,6 +81,9 @@ theorem step_skip {P : Progs} {s s' : State} {t : Tid} {th : Thread} {i : Instr}
   case ret => simp only at hs; cases hs; exact same _
   all_goals (simp only at hs; cases hs; exact same res)
 
+
+theorem quiet_mid {a : A} (h : a.quiet = true) : a.mid = false := by
+  simp only [A.quiet, Bool.and_eq_true, Bool.not_eq_true'] at h; exact h.1.1
 
 /-- building the thread-local invariant of the advanced thread from the one before the statement -/
 theorem TInv.next {svc : Bool} {s2 : State} {t : Tid} {op : Op} {code rest : List Instr} {a a2 : A}
@@ -133,7 +136,7 @@ theorem step_run {P : Progs} {s s' : State} {t : Tid} {th : Thread} {i : Instr} 
     intro sn c2 r e; subst e
     exact inv_setThread_simple h ht
       (i0.next hwf0 (fun x => .inl x) (fun x => .inl x) (fun x => ⟨(i0.chk x).1, .inl x⟩) (fun x => .inl x) i0.rsrm i0.mid (fun x => .inl x))
-      rfl rfl rfl rfl rfl rfl rfl
+      rfl rfl rfl rfl rfl rfl rfl (fun x => x)
   cases i
   case hook n => simp only at hs; cases hs; exact simple _ _ _ (by simpa [A.step] using hst.symm)
   case pLoad => simp only at hs; cases hs; exact simple _ _ _ (by simpa [A.step] using hst.symm)
@@ -141,8 +144,17 @@ theorem step_run {P : Progs} {s s' : State} {t : Tid} {th : Thread} {i : Instr} 
   case sLoad => simp only at hs; cases hs; exact simple _ _ _ (by simpa [A.step] using hst.symm)
   case setRemove =>
     simp only at hs
+    have hm : a' = { a with sr := true } := by
+      have hst2 := hst
+      simp only [A.step] at hst2; split at hst2
+      · exact (Option.some.inj hst2).symm
+      · cases hst2
+    subst hm
     split at hs
-    · cases hs; exact inv_wset (simple _ _ _ (by simpa [A.step] using hst.symm)) _
+    · cases hs
+      exact inv_wset (inv_setThread_simple h ht
+        (i0.next hwf0 (fun x => .inl x) (fun x => .inl x) (fun x => ⟨(i0.chk x).1, .inl x⟩) (fun x => .inl x) i0.rsrm i0.mid (fun x => .inl x))
+        rfl rfl rfl rfl rfl rfl rfl (fun _ => rfl)) _
     · cases hs
   case setAdd =>
     simp only at hs
@@ -173,7 +185,7 @@ theorem step_run {P : Progs} {s s' : State} {t : Tid} {th : Thread} {i : Instr} 
     simp only at hs
     have hm : a.mid = false ∧ a' = { a with nc := true } := by
       simp only [A.step] at hst; split at hst
-      · rename_i hc; exact ⟨by simpa using hc, (Option.some.inj hst).symm⟩
+      · rename_i hc; exact ⟨quiet_mid hc, (Option.some.inj hst).symm⟩
       · cases hst
     obtain ⟨hm, rfl⟩ := hm
     split at hs
@@ -181,29 +193,29 @@ theorem step_run {P : Progs} {s s' : State} {t : Tid} {th : Thread} {i : Instr} 
       split at hs
       · rename_i hnm
         cases hs
-        refine inv_setThread_simple h ht (i0.next hwf0 (fun x => .inl x) (fun x => .inl x) (fun x => ⟨(i0.chk x).1, .inl x⟩) (fun x => .inl x) i0.rsrm i0.mid ?_) rfl rfl rfl rfl rfl rfl rfl
+        refine inv_setThread_simple h ht (i0.next hwf0 (fun x => .inl x) (fun x => .inl x) (fun x => ⟨(i0.chk x).1, .inl x⟩) (fun x => .inl x) i0.rsrm i0.mid ?_) rfl rfl rfl rfl rfl rfl rfl (fun x => x)
         intro _; right
         simp only [nameOf, Thread.w, Thread.desc] at hwt hnm ⊢
         rw [hwt]; simp [hnm]
       · cases hs
-        exact inv_setThread_simple h ht ⟨by simp, i0.hw, i0.ht, i0.chk, i0.cl, i0.rsrm, i0.mid, i0.nc, fun _ => hm⟩ rfl rfl rfl rfl rfl rfl rfl
+        exact inv_setThread_simple h ht ⟨by simp, i0.hw, i0.ht, i0.chk, i0.cl, i0.rsrm, i0.mid, i0.nc, fun _ => hm⟩ rfl rfl rfl rfl rfl rfl rfl (fun x => x)
     · cases hs
   case loadClosed =>
     simp only at hs
     have hm : a.hw = true ∧ a.mid = false ∧ a' = { a with chk := true } := by
       simp only [A.step] at hst; split at hst
       · rename_i hc; simp only [Bool.and_eq_true, Bool.not_eq_true'] at hc
-        exact ⟨hc.1, hc.2, (Option.some.inj hst).symm⟩
+        exact ⟨hc.1, quiet_mid hc.2, (Option.some.inj hst).symm⟩
       · cases hst
     obtain ⟨hhw, hm, rfl⟩ := hm
     split at hs
     · rename_i wt hwt
       split at hs
       · cases hs
-        exact inv_setThread_simple h ht ⟨by simp, i0.hw, i0.ht, i0.chk, i0.cl, i0.rsrm, i0.mid, i0.nc, fun _ => hm⟩ rfl rfl rfl rfl rfl rfl rfl
+        exact inv_setThread_simple h ht ⟨by simp, i0.hw, i0.ht, i0.chk, i0.cl, i0.rsrm, i0.mid, i0.nc, fun _ => hm⟩ rfl rfl rfl rfl rfl rfl rfl (fun x => x)
       · rename_i hnc
         cases hs
-        refine inv_setThread_simple h ht (i0.next hwf0 (fun x => .inl x) (fun x => .inl x) ?_ (fun x => .inl x) i0.rsrm i0.mid (fun x => .inl x)) rfl rfl rfl rfl rfl rfl rfl
+        refine inv_setThread_simple h ht (i0.next hwf0 (fun x => .inl x) (fun x => .inl x) ?_ (fun x => .inl x) i0.rsrm i0.mid (fun x => .inl x)) rfl rfl rfl rfl rfl rfl rfl (fun x => x)
         intro _; refine ⟨hhw, .inr ?_⟩
         simp only [closedOf, Thread.w] at hwt ⊢
         rw [hwt]; simpa using hnc
@@ -227,7 +239,7 @@ theorem step_run {P : Progs} {s s' : State} {t : Tid} {th : Thread} {i : Instr} 
       have j := h1.th t _ ht
       exact inv_setThread_simple h1 ht
         (j.next hwf0 (fun x => .inl x) (fun _ => .inr rfl) (fun x => ⟨(j.chk x).1, .inl x⟩) (fun x => .inl x) j.rsrm (fun _ => rfl) (fun x => .inl x))
-        rfl rfl rfl rfl rfl rfl rfl
+        rfl rfl rfl rfl rfl rfl rfl (fun x => x)
     · cases hs
   case unlockT =>
     simp only at hs
@@ -235,7 +247,7 @@ theorem step_run {P : Progs} {s s' : State} {t : Tid} {th : Thread} {i : Instr} 
       have hst2 := hst
       simp only [A.step] at hst2; split at hst2
       · rename_i hc; simp only [Bool.and_eq_true, Bool.not_eq_true'] at hc
-        exact ⟨hc.1, hc.2, (Option.some.inj hst2).symm⟩
+        exact ⟨hc.1, quiet_mid hc.2, (Option.some.inj hst2).symm⟩
       · cases hst2
     obtain ⟨hht, hmid, rfl⟩ := hm
     simp only [hht, if_true] at hs
@@ -244,7 +256,7 @@ theorem step_run {P : Progs} {s s' : State} {t : Tid} {th : Thread} {i : Instr} 
       inv_setThread_simple h ht
         (i0.next hwf0 (fun x => .inl x) (fun x => by simp at x) (fun x => ⟨(i0.chk x).1, .inl x⟩) (fun x => .inl x) i0.rsrm
           (fun x => by simp only at x; rw [hmid] at x; cases x) (fun x => .inl x))
-        rfl rfl rfl rfl rfl rfl rfl
+        rfl rfl rfl rfl rfl rfl rfl (fun x => x)
     refine inv_tmu h1 none ?_
     intro t0 th0 h0 hh0
     rcases upd_some_cases h0 with ⟨rfl, rfl⟩ | ⟨ne, h0'⟩
@@ -273,7 +285,7 @@ theorem step_run {P : Progs} {s s' : State} {t : Tid} {th : Thread} {i : Instr} 
         have j := h1.th t _ ht
         refine inv_setThread_simple h1 ht
           (j.next hwf0 (fun _ => .inr ⟨{ wt with mu := some t }, ?_, rfl⟩) (fun x => .inl x) (fun x => ⟨rfl, .inl x⟩) (fun x => .inl x) j.rsrm j.mid (fun x => .inl x))
-          rfl rfl rfl rfl rfl rfl rfl
+          rfl rfl rfl rfl rfl rfl rfl (fun x => x)
         show upd s.watchers _ _ _ = _
         exact upd_same _ _ _
       · cases hs
@@ -295,7 +307,7 @@ theorem step_run {P : Progs} {s s' : State} {t : Tid} {th : Thread} {i : Instr} 
     have h1 : Inv P (setThread s t ⟨op, rest, false, { a with hw := false, chk := false }, snap, cr, pres, res⟩) :=
       inv_setThread_simple h ht
         (i0.next hwf0 (fun x => by simp at x) (fun x => .inl x) (fun x => by simp at x) (fun x => .inl x) i0.rsrm i0.mid (fun x => .inl x))
-        rfl rfl rfl rfl rfl rfl rfl
+        rfl rfl rfl rfl rfl rfl rfl (fun x => x)
     refine inv_mu none h1 hwt ?_
     intro t0 th0 h0 hh0 hw0
     rcases upd_some_cases h0 with ⟨rfl, rfl⟩ | ⟨ne, h0'⟩
@@ -310,36 +322,40 @@ theorem step_run {P : Progs} {s s' : State} {t : Tid} {th : Thread} {i : Instr} 
       have hst2 := hst
       simp only [A.step] at hst2; split at hst2
       · rename_i hc; simp only [Bool.and_eq_true, Bool.not_eq_true'] at hc
-        exact ⟨hc.1, hc.2, (Option.some.inj hst2).symm⟩
+        exact ⟨hc.1, quiet_mid hc.2, (Option.some.inj hst2).symm⟩
       · cases hst2
     obtain ⟨hhw, hmid, rfl⟩ := hm
     split at hs
     · rename_i wt hwt
       split at hs
       · cases hs
-        exact inv_setThread_simple h ht ⟨by simp, i0.hw, i0.ht, i0.chk, i0.cl, i0.rsrm, i0.mid, i0.nc, fun _ => hmid⟩ rfl rfl rfl rfl rfl rfl rfl
+        exact inv_setThread_simple h ht ⟨by simp, i0.hw, i0.ht, i0.chk, i0.cl, i0.rsrm, i0.mid, i0.nc, fun _ => hmid⟩ rfl rfl rfl rfl rfl rfl rfl (fun x => x)
       · rename_i hnc
         cases hs
-        exact inv_cas (th := ⟨op, .casClosed :: rest, false, a, snap, cr, pres, res⟩) h ht hwt (by simpa using hnc) hhw rfl (fun _ => hwf0) rfl rfl rfl rfl rfl rfl rfl rfl rfl rfl (by simp)
+        exact inv_cas (th := ⟨op, .casClosed :: rest, false, a, snap, cr, pres, res⟩)
+          (th' := ⟨op, rest, false, { a with cl := true, chk := false, rm := false, rs := false, rr := false }, snap, cr, pres, res⟩) h ht hwt (by simpa using hnc) hhw rfl (fun _ => hwf0) rfl rfl rfl rfl rfl rfl rfl rfl rfl rfl (by simp)
     · cases hs
   case pAdd =>
     simp only at hs
-    have hm : a.hw = true ∧ a.ht = true ∧ a.chk = true ∧ a.nc = true ∧ P.svc = false ∧ a' = a := by
+    have hm : a.hw = true ∧ a.ht = true ∧ a.chk = true ∧ a.nc = true ∧ P.svc = false ∧ a' = { a with pa := true } := by
       have hst2 := hst
       simp only [A.step] at hst2; split at hst2
       · rename_i hc; simp only [Bool.and_eq_true, Bool.not_eq_true'] at hc
-        exact ⟨hc.1.1.1.1, hc.1.1.1.2, hc.1.1.2, hc.1.2, hc.2, (Option.some.inj hst2).symm⟩
+        obtain ⟨⟨⟨⟨⟨⟨h1, h2⟩, h3⟩, h4⟩, h5⟩, h6⟩, h7⟩ := hc
+        exact ⟨h1, h2, h3, h4, h5, (Option.some.inj hst2).symm⟩
       · cases hst2
     obtain ⟨hhw, hht, hchk, hnc, hsvc, rfl⟩ := hm
     cases hs
-    refine inv_mtab (simple _ _ _ rfl) _ ?_ (by intro h'; rw [hsvc] at h'; cases h')
+    refine inv_mtab (inv_setThread_simple h ht
+      (i0.next hwf0 (fun x => .inl x) (fun x => .inl x) (fun x => ⟨(i0.chk x).1, .inl x⟩) (fun x => .inl x) i0.rsrm i0.mid (fun x => .inl x))
+      rfl rfl rfl rfl rfl rfl rfl (fun x => x)) _ ?_ (by intro h'; rw [hsvc] at h'; cases h')
     intro e he
     rcases mem_tblAdd he with h1 | rfl
     · left; exact h1
     · right; exact ⟨(i0.chk hchk).2, i0.nc hnc⟩
   case pRemove =>
     simp only at hs
-    have hm : a' = { a with rm := true } := by
+    have hm : a' = { a with rm := true, pr := true } := by
       have hst2 := hst
       simp only [A.step] at hst2; split at hst2
       · exact (Option.some.inj hst2).symm
@@ -371,7 +387,7 @@ theorem step_run {P : Progs} {s s' : State} {t : Tid} {th : Thread} {i : Instr} 
     · cases hs
   case pStore =>
     simp only at hs
-    have hm : a' = { a with rs := a.rm } := by
+    have hm : a' = { a with rs := a.rm, pa := false, pr := false } := by
       have hst2 := hst
       simp only [A.step] at hst2; split at hst2
       · exact (Option.some.inj hst2).symm
@@ -450,7 +466,7 @@ theorem step_run {P : Progs} {s s' : State} {t : Tid} {th : Thread} {i : Instr} 
     have hm : a.ht = true ∧ a' = { a with mid := false } := by
       have hst2 := hst
       simp only [A.step] at hst2; split at hst2
-      · rename_i hc; exact ⟨hc, (Option.some.inj hst2).symm⟩
+      · rename_i hc; simp only [Bool.and_eq_true] at hc; exact ⟨hc.1, (Option.some.inj hst2).symm⟩
       · cases hst2
     obtain ⟨hht, rfl⟩ := hm
     cases hs
@@ -595,7 +611,7 @@ theorem Inv.noRes {P : Progs} {s : State} (h : Inv P s) {w : Wid} (hw : w ∈ s.
       rcases h.mtab e he with x | ⟨t1, th1, h1, hw1, hc1, hp1⟩
       · rw [hown, hclosed] at x; cases x
       · have := h.clU t1 t0 th1 th0 h1 h0 hc1 hc0 (by rw [hw1, hown, hw0])
-        subst this; rw [h0] at h1; cases h1; simp [hcl0.1] at hp1
+        subst this; rw [h0] at h1; cases h1; simp [hcl0.1.1] at hp1
   · intro e he hown
     cases hsv : P.svc with
     | true => rw [(h.kindP hsv).2] at he; cases he
@@ -604,16 +620,16 @@ theorem Inv.noRes {P : Progs} {s : State} (h : Inv P s) {w : Wid} (hw : w ∈ s.
       rcases h.static e he with x | ⟨t1, th1, h1, hw1, hc1, hp1⟩
       · rw [hown, hclosed] at x; cases x
       · have := h.clU t1 t0 th1 th0 h1 h0 hc1 hc0 (by rw [hw1, hown, hw0])
-        subst this; rw [h0] at h1; cases h1; simp [hcl0.2] at hp1
+        subst this; rw [h0] at h1; cases h1; simp [hcl0.1.2] at hp1
   · intro k e he hown
     cases hsv : P.svc with
     | false => rw [h.kindS hsv k] at he; cases he
     | true =>
-      simp only [hsv, if_true] at hcl0
+      simp only [hsv, if_true, Bool.and_eq_true] at hcl0
       rcases h.routes k e he with x | ⟨t1, th1, h1, hw1, hc1, hp1⟩
       · rw [hown, hclosed] at x; cases x
       · have := h.clU t1 t0 th1 th0 h1 h0 hc1 hc0 (by rw [hw1, hown, hw0])
-        subst this; rw [h0] at h1; cases h1; simp [hcl0] at hp1
+        subst this; rw [h0] at h1; cases h1; simp [hcl0.1] at hp1
   · intro t th ht hwt
     cases hx : th.a.chk with
     | false => rfl
